@@ -56,6 +56,13 @@ def cases(tier, seed):
         out.append({'est': name, 'params': cfg, 'ds': ds, 'seed': seed % 1000,
                     'nq': nq, 'qseed': int(rng_for('q', seed, name, di,
                                                    ci).randint(2**31 - 1))})
+  return _with_repotests(out, tier)
+
+
+def _with_repotests(out, tier):
+  if tier != 'quick':
+    from .. import repotests
+    out.extend(repotests.specs())
   return out
 
 
@@ -75,6 +82,9 @@ def _slack(Lfro, x, y, z):
 
 
 def run_case(spec, j):
+  if spec.get('kind') == 'repotests':
+    from .. import repotests
+    return repotests.run(spec, j)
   f, _ = common.fit(spec, j)
   if f is None:
     return
